@@ -393,71 +393,3 @@ Proof.
   eexists _, _. split; [vm_compute; reflexivity|]. split; [vm_compute; reflexivity|]. split; vm_compute; reflexivity.
 Qed.
 
-(* ------------------------------------------------------------------ formatting formatted code changes nothing *)
-From PV Require Proofs.AstWriterDepth Proofs.FmtRelexIdem.
-
-(* program-level idempotence (the clause of C10 "formatting already-formatted code changes nothing", for the models):
-   for a source of the reference dialect inside the writer's domain and without the two constructs where the writer's
-   nesting counter is not the reference depth (Proofs/AstWriterDepth.v: no_short_else - a one-line `if (c) .. else ..`,
-   no_trailing_sep - a trailing table separator `{1,2,}`; see C10_indent_link), luafmt writes a text out; the lexer
-   model reads out; and WHENEVER the parser model reads those tokens to the end with a tree under the same
-   conditions, luafmt writes exactly out again.
-   Proof (Proofs/FmtRelexIdem.v): the layout relation rr of relex_rend says that every maximal white-space run of the
-   re-lexed token list is the text fmt_run cfg r that pass 1 wrote for a run, with cfg = (first in file, last in
-   file, width, reference depth of the next token - C10_indent_link for pass 1; 0 for the run that ends the file:
-   writer_aligned_final); the depth rules see the same code tokens in both lists (class and data of keywords and
-   symbols: plain_tokens), so pass 2 calls the pipeline with the same cfg (C10_indent_link for pass 2) on
-   fmt_run cfg r, and fmt_run cfg (fmt_run cfg r) = fmt_run cfg r (C10_run_idempotent); the code tokens are written
-   verbatim both times (C09_aligned) and the text of the re-lexed tokens is out (TokString.code is a fixed point of
-   lexing and re-spelling). *)
-Theorem C09_luafmt_idempotent : forall w src ss lts root e,
-  Forall byte src -> LuaLex.spec_lex src = Some ss -> Lexer.model_lex [src] = Ok lts ->
-  lua_parse (map LexToken.lex_token lts) = Ok (root, e) -> consumed (map LexToken.lex_token lts) e = true ->
-  writable (map LexToken.lex_token lts) root = true ->
-  AstWriterDepth.no_short_else root = true -> AstWriterDepth.no_trailing_sep root = true ->
-  exists out ss' lts',
-    writer_text (fmt_spaces w) (map LexToken.lex_token lts) (view root) = Ok out /\ Forall byte out /\
-    LuaLex.spec_lex out = Some ss' /\ Lexer.model_lex [out] = Ok lts' /\
-    forall root' e',
-      lua_parse (map LexToken.lex_token lts') = Ok (root', e') -> consumed (map LexToken.lex_token lts') e' = true ->
-      writable (map LexToken.lex_token lts') root' = true ->
-      AstWriterDepth.no_short_else root' = true -> AstWriterDepth.no_trailing_sep root' = true ->
-      writer_text (fmt_spaces w) (map LexToken.lex_token lts') (view root') = Ok out.
-Proof. exact FmtRelexIdem.luafmt_idempotent. Qed.
-Print Assumptions C09_luafmt_idempotent.
-
-(* non-vacuity: a badly indented function with a table constructor over two lines, an if block with two blank lines,
-   comments of all three kinds (the block comment over two lines, directly followed by code) and a tab: pass 1 changes
-   the text; the written text is lexed and parsed again, lies in the domain, and pass 2 reproduces it *)
-Definition C09_idem_src : list Z := unBS "-- header
-function f(a)
-    local t = {1,
-  2}	-- tab
-  if a then
-      x=-1 // c2
-
-
-   f""s""
-  end
-  --[[ block
-     comment ]] return a..b
-end
-"%bs.
-
-Example C09_luafmt_idempotent_nonvacuous :
-  exists ss lts root e out lts' root' e',
-    Forall byte C09_idem_src /\ LuaLex.spec_lex C09_idem_src = Some ss /\ Lexer.model_lex [C09_idem_src] = Ok lts /\
-    lua_parse (map LexToken.lex_token lts) = Ok (root, e) /\ consumed (map LexToken.lex_token lts) e = true /\
-    writable (map LexToken.lex_token lts) root = true /\
-    AstWriterDepth.no_short_else root = true /\ AstWriterDepth.no_trailing_sep root = true /\
-    writer_text (fmt_spaces 2) (map LexToken.lex_token lts) (view root) = Ok out /\ zlist_eqb out C09_idem_src = false /\
-    Lexer.model_lex [out] = Ok lts' /\
-    lua_parse (map LexToken.lex_token lts') = Ok (root', e') /\ consumed (map LexToken.lex_token lts') e' = true /\
-    writable (map LexToken.lex_token lts') root' = true /\
-    AstWriterDepth.no_short_else root' = true /\ AstWriterDepth.no_trailing_sep root' = true /\
-    writer_text (fmt_spaces 2) (map LexToken.lex_token lts') (view root') = Ok out.
-Proof.
-  eexists _, _, _, _, _, _, _, _. split.
-  { apply Forall_forall. intros x Hx. apply byteb_spec. revert x Hx. apply forallb_forall. vm_compute. reflexivity. }
-  repeat (split; [vm_compute; reflexivity|]). vm_compute. reflexivity.
-Qed.
